@@ -238,15 +238,21 @@ def run_property(pid, tier, group, cfgs, luau, env_for=None, nrand=(200, 3000), 
         cul = culprit.get(c["id"], rules[0] if len(rules) == 1 else "generator")
         # triggers of known findings are evaluated on the input of the culprit STEP, not of the whole pipeline
         step_src = STEP_INPUT.get(c["id"], c["src"])
-        if step_src not in trig_cache:
-            trig_cache[step_src] = parse_nodes(step_src)
+        for t in (step_src, c["src"]):
+            if t not in trig_cache:
+                trig_cache[t] = parse_nodes(t)
         prog = trig_cache[step_src]
+        prog0 = trig_cache[c["src"]]
         sig = {"kind": "behaviour" if v["verdict"] == "differ" else "failure", "culprit": cul.split(",")[0].replace("{ rule: ", "").strip("'\" {}") if cul.startswith("{") else cul,
                "trigger_andor_multi": trigger_andor_multi(prog), "trigger_repeat_continue_local": trigger_repeat_continue_local(prog),
                "generator": c["generator"], "cfg": c["cfg"], "what": (v.get("detail") or {}).get("what", v.get("status", ""))[:120],
                "body": c["body"][:200]}
         if extra_sig:
-            sig.update(extra_sig(c, prog, v))
+            # a trigger holds when it holds on the input of the culprit step OR on the original program
+            e1, e0 = extra_sig(c, prog, v), extra_sig(c, prog0, v)
+            sig.update({k: (e1[k] or e0[k]) if isinstance(e1[k], bool) else e1[k] for k in e1})
+        for tk, fn in (("trigger_andor_multi", trigger_andor_multi), ("trigger_repeat_continue_local", trigger_repeat_continue_local)):
+            sig[tk] = sig[tk] or fn(prog0)
         payload = {"id": c["id"], "src": c["src"], "rules": c["rules"], "generator": c["generator"], "out": v.get("out", ""), "detail": v.get("detail")}
         for e in ("enva", "envb"):
             if e in c:
